@@ -8,8 +8,9 @@ from .report import VERIF, REPO, VENV_PY, write_replay, FAILED, UNDECIDED, DISCH
 SEARCH = int(os.environ.get("PYVC_REPLAY_SEARCH", "300"))
 
 
-def native(path, search=0, timeout=600):
+def native(path, search=0, timeout=600, extra_env=None):
     env = dict(os.environ, PYTHONPATH=VERIF + os.pathsep + REPO, PYTHONDONTWRITEBYTECODE="1")
+    env.update(extra_env or {})
     cmd = [VENV_PY, "-W", "ignore", "-m", "pyvc.native_run", path]
     if search:
         cmd += ["--search", str(search)]
@@ -157,7 +158,7 @@ def cross_check(rep, contract_mod, hname, meta, seed=0, n=None):
                    obligation_text="native cross-check of a discharged harness", solver_backend="native-sampling")
     path = write_replay(rep.pid, "%s/crosscheck@%d" % (hname, os.getpid()), payload)
     t0 = time.time()
-    rc, res = native(path, search=n, timeout=900)
+    rc, res = native(path, search=n, timeout=900, extra_env={"PYVC_CROSSCHECK_RUN": "1"})
     dt = time.time() - t0
     _rm(path)
     clause = meta.get("clause", hname)
